@@ -32,7 +32,7 @@ def run(ctx):
                 "legacy-selftest", expect_violation=True, workers=4)
     # all interleavings of 2 transactions over 3 entities: one script per transition of the state graph
     scripts = ctx.tlc_gen("MC_Txn", GEN.format(ents=E3, maxt=2, maxh=9, legacy="FALSE", view="VIEW View",
-                                               emit="ACTION_CONSTRAINT Emit", extra=""), "cover-2txn-3ent")
+                                               emit="ACTION_CONSTRAINT Emit", extra=""), "cover-2txn-3ent", coverage=True)
     # all interleavings of 3 transactions over 2 entities: design check; scripts per transition in thorough, walks in quick
     scripts += ctx.tlc_gen("MC_Txn", GEN.format(ents=E2, maxt=3, maxh=12, legacy="FALSE", view="VIEW View",
                                                 emit="" if q else "ACTION_CONSTRAINT Emit", extra=""), "design-3txn-2ent", timeout=1800)
